@@ -198,6 +198,33 @@ def run(chk):
     chk.exhaustive = False
     chk.sample(traces[0]); chk.sample(traces[nsmall + 1]); chk.sample(traces[-1])
 
+    # ---- beyond C03: the Machine model's own utilities against the fabric of Hex.tla
+    extras = []
+    for i in range(chk.pick(300, 4000)):
+        m = gen.random_machine(rng, maxw=6, maxh=6, p_dead_chip=rng.choice((0, 0.1, 0.3)))
+        tr = proj.machine_json(m)
+        evs = []
+        try:
+            evs.append(["chips", [[x, y] for (x, y) in m]])
+            evs.append(["links", [[x, y, int(l)] for (x, y, l) in m.iter_links()]])
+            evs.append(["wrap", 1 if m.has_wrap_around_links() else 0])
+            o = Machine(m.width, m.height, chip_resources=dict(m.chip_resources), dead_chips=set(m.dead_chips),
+                        dead_links=set(m.dead_links))
+            r = rng.random()
+            if r < 0.4 and o.dead_links:
+                o.dead_links.discard(rng.choice(sorted(o.dead_links)))       # other has more
+            elif r < 0.7:
+                o.dead_links.add((rng.randrange(m.width), rng.randrange(m.height), Links(rng.randrange(6))))
+            elif r < 0.85 and o.dead_chips:
+                o.dead_chips.discard(rng.choice(sorted(o.dead_chips)))
+            evs.append(["subset", proj.machine_json(o), 1 if m.issubset(o) else 0])
+        except Exception as ex:
+            evs.append(["raise", type(ex).__name__])
+        tr["ev"] = evs
+        extras.append(tr)
+    chk.validate_beyond("MachineModelTrace", "MachineModelTrace.cfg", extras,
+                        "Machine.__iter__ / iter_links / has_wrap_around_links / issubset against the fabric", batch=4000)
+
     def key_of(tr, i, clauses):
         e = tr["ev"][i - 1]
         base = "machine=%dx%d dead=%s deadlinks=%s radius=%s seed=%s" % (
